@@ -11,7 +11,9 @@
            D                  get_demoted()
            G                  get_area()        (in deepest-pixel units)
            Q n q1…qn          sky_within at positions inside deepest pixels q1…qn (one call)
-           P                  save; load
+           P                  save; load      (one object: pickle round trip)
+           S f | L f          save the current region to file f / replace it by a fresh load of file f
+           UF b f | WF f | IF f | XF f     union / without / intersect / symmetric_difference with load(f)
   region:  m c k (d n p1…pn)*k      depth, cache-alias flag, k populated levels
 
   answer: for every item  `<status>;<state>;<obs>;<operand after>;<spec set>;<spec obs>`  joined by " | ".
@@ -20,7 +22,7 @@
 import Aegean.Driver.Common
 import Aegean.Model.C08
 import Aegean.Spec.C08
-import Aegean.Proofs.C08Refine
+import Aegean.Proofs.C08Session
 
 namespace Drv.C08
 open Drv Aegean.Model.C08
@@ -71,19 +73,27 @@ def parseRegion : List String → Option (Region × List String)
     else pure ({ m := m, pd := lookupLevel ls, cached := c != 0 }, r)
   | _ => none
 
+def fileNo (w : String) : Option Nat := do let f ← w.toNat?; if f < 8 then pure f else none
+
 /-- one protocol item = a list of model operations (only `Q` expands to several) -/
-def parseItem : List String → Option (List Op)
-  | "A" :: d :: ws => do let d ← d.toNat?; let (ps, r) ← counted ws; if r.isEmpty then pure [.addRaw ps d] else none
-  | "N" :: d :: ws => do let d ← d.toNat?; let (ps, r) ← counted ws; if r.isEmpty then pure [.add ps d] else none
-  | ["R"] => some [.renorm]
-  | "U" :: b :: ws => do let b ← b.toNat?; let (o, r) ← parseRegion ws; if r.isEmpty then pure [.union o (b != 0)] else none
-  | "W" :: ws => do let (o, r) ← parseRegion ws; if r.isEmpty then pure [.without o] else none
-  | "I" :: ws => do let (o, r) ← parseRegion ws; if r.isEmpty then pure [.intersect o] else none
-  | "X" :: ws => do let (o, r) ← parseRegion ws; if r.isEmpty then pure [.symdiff o] else none
-  | ["D"] => some [.getDemoted]
-  | ["G"] => some [.area]
-  | "Q" :: ws => do let (qs, r) ← counted ws; if r.isEmpty ∧ !qs.isEmpty then pure (qs.map .within) else none
-  | ["P"] => some [.saveLoad]
+def parseItem : List String → Option (List SessOp)
+  | "A" :: d :: ws => do let d ← d.toNat?; let (ps, r) ← counted ws; if r.isEmpty then pure [.op (.addRaw ps d)] else none
+  | "N" :: d :: ws => do let d ← d.toNat?; let (ps, r) ← counted ws; if r.isEmpty then pure [.op (.add ps d)] else none
+  | ["R"] => some [.op .renorm]
+  | "U" :: b :: ws => do let b ← b.toNat?; let (o, r) ← parseRegion ws; if r.isEmpty then pure [.op (.union o (b != 0))] else none
+  | "W" :: ws => do let (o, r) ← parseRegion ws; if r.isEmpty then pure [.op (.without o)] else none
+  | "I" :: ws => do let (o, r) ← parseRegion ws; if r.isEmpty then pure [.op (.intersect o)] else none
+  | "X" :: ws => do let (o, r) ← parseRegion ws; if r.isEmpty then pure [.op (.symdiff o)] else none
+  | ["D"] => some [.op .getDemoted]
+  | ["G"] => some [.op .area]
+  | "Q" :: ws => do let (qs, r) ← counted ws; if r.isEmpty ∧ !qs.isEmpty then pure (qs.map (fun q => .op (.within q))) else none
+  | ["P"] => some [.op .saveLoad]
+  | ["S", f] => do let f ← fileNo f; pure [.save f]
+  | ["L", f] => do let f ← fileNo f; pure [.load f]
+  | ["UF", b, f] => do let b ← b.toNat?; let f ← fileNo f; pure [.unionFile f (b != 0)]
+  | ["WF", f] => do let f ← fileNo f; pure [.withoutFile f]
+  | ["IF", f] => do let f ← fileNo f; pure [.intersectFile f]
+  | ["XF", f] => do let f ← fileNo f; pure [.symdiffFile f]
   | _ => none
 
 def splitBar (ws : List String) : List (List String) :=
@@ -106,13 +116,15 @@ def showSObs : List Aegean.Spec.C08.Obs → String
   | [.area n] => s!"A:{n}"
   | obs => "B:" ++ String.join (obs.map (fun o => match o with | .answer true => "1" | .answer false => "0" | _ => "?"))
 
-def errName : Err → String
-  | .assertion => "assert"
-  | .badDepth => "baddepth"
+def errName : SessErr → String
+  | .op .assertion => "assert"
+  | .op .badDepth => "baddepth"
+  | .noFile => "nofile"
 
-def serrName : Aegean.Spec.C08.Err → String
-  | .assertion => "assert"
-  | .badDepth => "baddepth"
+def serrName : Aegean.Spec.C08.SessErr → String
+  | .op .assertion => "assert"
+  | .op .badDepth => "baddepth"
+  | .noFile => "nofile"
 
 /-- the same region with its level function tabulated (pure representation change: `pd` is a chain of
     closures after a few operations, and every access would re-run it) -/
@@ -120,46 +132,57 @@ def tabulate (r : Region) : Region :=
   let tbl := (List.range' 1 r.m).map (fun d => (d, r.pd d))
   { r with pd := lookupLevel tbl }
 
-/-- run the operations of one item on the model; the first error aborts the item (state unchanged) -/
-def runItem (r : Region) : List Op → Except Err (Region × List Obs)
-  | [] => .ok (r, [])
-  | op :: ops =>
-    match step r op with
-    | .error e => .error e
-    | .ok (r', o) =>
-      match runItem (tabulate r') ops with
-      | .error e => .error e
-      | .ok (rf, os) => .ok (rf, o :: os)
+def lookupFile (tbl : List (Nat × Option Region)) (g : Nat) : Option Region :=
+  match tbl.find? (fun x => x.1 == g) with
+  | some x => x.2
+  | none => none
 
-def runSItem (s : Aegean.Spec.C08.S) : List Op → Except Aegean.Spec.C08.Err (Aegean.Spec.C08.S × List Aegean.Spec.C08.Obs)
+/-- same representation change for the file map (file numbers 0..7 only; the parser rejects others) -/
+def tabSession (s : Session) : Session :=
+  let tbl := (List.range 8).map (fun f => (f, (s.files f).map tabulate))
+  { cur := tabulate s.cur, files := lookupFile tbl }
+
+/-- run the operations of one item on the model; the first error aborts the item (state unchanged) -/
+def runItem (s : Session) : List SessOp → Except SessErr (Session × List Obs)
   | [] => .ok (s, [])
   | op :: ops =>
-    match Aegean.Spec.C08.step s (Aegean.Proofs.C08.absOp op) with
+    match sessStep s op with
+    | .error e => .error e
+    | .ok (s', o) =>
+      match runItem (tabSession s') ops with
+      | .error e => .error e
+      | .ok (sf, os) => .ok (sf, o :: os)
+
+def runSItem (s : Aegean.Spec.C08.Sess) : List SessOp →
+    Except Aegean.Spec.C08.SessErr (Aegean.Spec.C08.Sess × List Aegean.Spec.C08.Obs)
+  | [] => .ok (s, [])
+  | op :: ops =>
+    match Aegean.Spec.C08.sessStep s (Aegean.Proofs.C08.absSessOp op) with
     | .error e => .error e
     | .ok (s', o) =>
       match runSItem s' ops with
       | .error e => .error e
       | .ok (sf, os) => .ok (sf, o :: os)
 
-def showOperand (ops : List Op) : String :=
+def showOperand (ops : List SessOp) : String :=
   match ops with
-  | [op] => match operandAfter op with
+  | [.op op] => match operandAfter op with
     | some o => showState o
     | none => "-"
   | _ => "-"
 
-def runSeq (r : Region) (s : Aegean.Spec.C08.S) : List (List String) → List String
+def runSeq (r : Session) (s : Aegean.Spec.C08.Sess) : List (List String) → List String
   | [] => []
   | it :: rest =>
     match parseItem it with
     | none => ["bad-op"]
     | some ops =>
       let (r', mtxt) := match runItem r ops with
-        | .ok (r', obs) => (r', s!"ok;{showState r'};{showObs obs};{showOperand ops}")
-        | .error e => (r, s!"err {errName e};{showState r};-;-")
+        | .ok (r', obs) => (r', s!"ok;{showState r'.cur};{showObs obs};{showOperand ops}")
+        | .error e => (r, s!"err {errName e};{showState r.cur};-;-")
       let (s', stxt) := match runSItem s ops with
-        | .ok (s', obs) => (s', s!"{showSet (Aegean.Spec.C08.dedup s'.pix)};{showSObs obs}")
-        | .error e => (s, s!"{showSet (Aegean.Spec.C08.dedup s.pix)};err {serrName e}")
+        | .ok (s', obs) => (s', s!"{showSet (Aegean.Spec.C08.dedup s'.cur.pix)};{showSObs obs}")
+        | .error e => (s, s!"{showSet (Aegean.Spec.C08.dedup s.cur.pix)};err {serrName e}")
       (mtxt ++ ";" ++ stxt) :: runSeq r' s' rest
 
 def handle (ws : List String) : String :=
@@ -169,7 +192,7 @@ def handle (ws : List String) : String :=
     | some m =>
       if m = 0 then "bad-op" else
       let items := if rest.isEmpty then [] else splitBar rest
-      let out := runSeq (empty m) ⟨m, []⟩ items
+      let out := runSeq ⟨empty m, fun _ => none⟩ ⟨⟨m, []⟩, fun _ => none⟩ items
       if out.contains "bad-op" then "bad-op" else " | ".intercalate out
     | none => "bad-op"
   | "abs" :: rest =>   -- the executable abstraction of a given state: covered deepest pixels, with repetition
